@@ -69,6 +69,16 @@ Definition d_scan (op : string) (v : val) : option val :=
         end
     | _ => None
     end
+  else if String.eqb op "chk.simple_scan" then
+    match v with
+    | VL [VL s; VN k; VN p; VL scs; VL ivs] =>
+        match vlistN s, vlistN scs,
+              omap (fun x => match x with VL [VN b; VN st; VN ln] => Some (b, N.to_nat st, N.to_nat ln) | _ => None end) ivs with
+        | Some sq, Some scores, Some l => Some (ofbool (check_simple sq (N.to_nat k) (N.to_nat p) scores l))
+        | _, _, _ => None
+        end
+    | _ => None
+    end
   else if String.eqb op "chk.scan" || String.eqb op "chk.scan.unguarded" then
     match v with
     | VL [VL s; VN k; VN p; VL scs; VL ivs] =>
@@ -104,5 +114,5 @@ Definition d_scan (op : string) (v : val) : option val :=
 
 Definition is_scan_op (op : string) : bool :=
   String.eqb (substring 0 5 op) "scan." || String.eqb (substring 0 4 op) "msp." ||
-  String.eqb op "chk.scan" || String.eqb op "chk.scan.unguarded" || String.eqb op "chk.msp" ||
+  String.eqb op "chk.scan" || String.eqb op "chk.scan.unguarded" || String.eqb op "chk.simple_scan" || String.eqb op "chk.msp" ||
   String.eqb op "chk.msp.unguarded".
